@@ -1,0 +1,36 @@
+//! Verification-only thin wrappers around `pub(crate)` items of the timelock
+//! program (no logic of their own).  Compiled only with `--cfg gmsol_verif`.
+use anchor_lang::prelude::*;
+
+use crate::states::{config::TimelockConfig, Executor, InstructionHeader, InstructionRef};
+
+/// Calls [`InstructionHeader::approve`].
+pub fn header_approve(header: &mut InstructionHeader, approver: Pubkey) -> Result<()> {
+    header.approve(approver)
+}
+
+/// Calls `InstructionRef::header`.
+pub fn instruction_ref_header<'a>(ix: &'a InstructionRef<'_>) -> &'a InstructionHeader {
+    ix.header()
+}
+
+/// Calls `TimelockConfig::init`.
+pub fn config_init(config: &mut TimelockConfig, bump: u8, delay: u32, store: Pubkey) {
+    config.init(bump, delay, store)
+}
+
+/// Calls `TimelockConfig::increase_delay`.
+pub fn config_increase_delay(config: &mut TimelockConfig, delta: u32) -> Result<u32> {
+    config.increase_delay(delta)
+}
+
+/// Calls `Executor::try_init`.
+pub fn executor_try_init(
+    executor: &mut Executor,
+    bump: u8,
+    wallet_bump: u8,
+    store: Pubkey,
+    role_name: &str,
+) -> Result<()> {
+    executor.try_init(bump, wallet_bump, store, role_name)
+}
